@@ -79,6 +79,21 @@ def parse_methods(root):
     return out
 
 
+RESNAMES = {'()': 'unit', 'Entry': 'entry', '(stat64, Duration)': 'attr', 'Vec<u8>': 'bytes', 'usize': 'count', 'statvfs64': 'statfs',
+            'GetxattrReply': 'getxattr', 'ListxattrReply': 'listxattr', 'u64': 'u64', 'u32': 'u32', 'FileLock': 'lock', 'FsOptions': 'init',
+            "IoctlData<'_>": 'ioctl', '(Option<Self::Handle>, OpenOptions, Option<u32>)': 'open', '(Option<Self::Handle>, OpenOptions)': 'opendir',
+            '(Entry, Option<Self::Handle>, OpenOptions, Option<u32>)': 'create'}
+
+
+def resfn(ret):
+    """One uninterpreted result per RETURN TYPE: `res_<type>()` names "what the filesystem returned" to the single call a
+    request may make, whichever operation that was.  (Calling the wrong operation is a capability failure - C02 - and
+    does not also make the reply encoding - C03 - fail.)"""
+    m = re.match(r'^io::Result<(.*)>$', ret)
+    inner = m.group(1) if m else ret
+    return 'res_' + RESNAMES.get(inner, re.sub(r'[^A-Za-z0-9]+', '_', inner).strip('_').lower())
+
+
 def spec_of(pname, ty):
     """-> (spec type, spec expression of the exec argument, exec type in model, generic decl or None) ; None = not part of the call's value"""
     t = ty
@@ -116,6 +131,7 @@ def gen_trait(root, notes, server=False):
     L.append('    spec fn touch_ok(&self) -> bool;                       // the object may be called at all now (name gates)')
     L.append('    spec fn ids_ok(&self, uid: u32, gid: u32) -> bool;      // owner ids a setattr may carry')
     info = {}
+    seen_res = set()
     for m in ms:
         if m['name'] in OMIT:
             notes.append('fsmodel: method %s omitted (&mut dyn FnMut parameter)' % m['name'])
@@ -138,9 +154,11 @@ def gen_trait(root, notes, server=False):
         g = ('<%s>' % ', '.join(gens)) if gens else ''
         L.append('    spec fn allowed_%s(&self%s) -> bool;' % (name, ''.join(', ' + a for a in sargs)))
         ret = m['ret']
-        if ret:
+        rf = resfn(ret) if ret else None
+        if ret and rf not in seen_res:
+            seen_res.add(rf)
             ret_spec = ret.replace("IoctlData<'_>", 'IoctlRes')
-            L.append('    spec fn res_%s(&self) -> %s;' % (name, ret_spec))
+            L.append('    spec fn %s(&self) -> %s;' % (rf, ret_spec))
         if mut_ctx:
             L.append('    spec fn ctx_%s(&self) -> Context;' % name)
         sig = '    fn %s%s(&self%s)' % (name, g, ''.join(', ' + p for p in eparams))
@@ -155,9 +173,9 @@ def gen_trait(root, notes, server=False):
         ens = []
         if ret:
             if 'IoctlData' in ret:
-                ens.append('ioctl_res(res) == self.res_%s()' % name)
+                ens.append('ioctl_res(res) == self.%s()' % rf)
             else:
-                ens.append('res == self.res_%s()' % name)
+                ens.append('res == self.%s()' % rf)
         if mut_ctx:
             ens.append('res is Ok ==> *final(ctx) == self.ctx_%s()' % name)
             ens.append('res is Err ==> *final(ctx) == *old(ctx)')
@@ -172,7 +190,7 @@ def gen_trait(root, notes, server=False):
         else:
             L[-1] = L[-1].rstrip()
             L.append('        ;')
-        info[name] = dict(sargs=sargs, sexprs=sexprs, ret=ret, params=m['params'])
+        info[name] = dict(sargs=sargs, sexprs=sexprs, ret=ret, params=m['params'], resfn=rf)
     L.append('}')
     return '\n'.join(L), info, ms
 
@@ -182,6 +200,7 @@ def gen_impl(root, struct, inode_ty, handle_ty, notes, generics=''):
     ms = parse_methods(root)
     L = ['impl%s FileSystem for %s {' % (generics, struct), '    type Inode = %s;' % inode_ty, '    type Handle = %s;' % handle_ty,
          '    uninterp spec fn touch_ok(&self) -> bool;', '    uninterp spec fn ids_ok(&self, uid: u32, gid: u32) -> bool;']
+    seen_res = set()
     for m in ms:
         if m['name'] in OMIT:
             continue
@@ -202,7 +221,9 @@ def gen_impl(root, struct, inode_ty, handle_ty, notes, generics=''):
         ret = m['ret']
         if ret:
             r2 = ret.replace('Self::Inode', inode_ty).replace('Self::Handle', handle_ty)
-            L.append('    uninterp spec fn res_%s(&self) -> %s;' % (name, r2.replace("IoctlData<'_>", 'IoctlRes')))
+            if resfn(ret) not in seen_res:
+                seen_res.add(resfn(ret))
+                L.append('    uninterp spec fn %s(&self) -> %s;' % (resfn(ret), r2.replace("IoctlData<'_>", 'IoctlRes')))
         if mut_ctx:
             L.append('    uninterp spec fn ctx_%s(&self) -> Context;' % name)
         sig = '    #[verifier::external_body] fn %s%s(&self%s)' % (name, g, ''.join(', ' + p for p in eparams))
